@@ -375,6 +375,27 @@ def collision_pack():
     return out
 
 
+def merge_pack():
+    """Documents with YAML merge keys: a hash inheriting from an anchored
+    hash - plain, overriding an inherited key, inside a list, twice, with the
+    merge key first or last, and next to keys spelled like the anchor."""
+    base = ("&", "B", ("m", (("a", 1000), ("b", "a"))))
+    mk = ("<<", "B")
+    out = [
+        ("m", (("p", base), ("q", ("m", ((mk, None), ("c", 1000)))))),
+        ("m", (("p", base), ("q", ("m", ((mk, None), ("a", "a")))))),
+        ("m", (("p", base), ("q", ("m", (("c", "a"), (mk, None)))))),
+        ("m", (("p", base), ("q", ("m", ((mk, None),))))),
+        ("m", (("p", base), ("q", ("l", (("m", ((mk, None),)),
+                                         ("m", ((mk, None), ("b", 1000)))))))),
+        ("l", (base, ("m", ((mk, None), ("b", "a"), ("c", None))))),
+        ("m", (("a", base), ("b", ("m", ((mk, None), ("B", 1000)))))),
+        ("m", (("p", base), ("q", ("m", ((mk, None), ("c", ("m", (
+            (mk, None), ("a", None))))))))),
+    ]
+    return out
+
+
 def shape(spec):
     """Shape signature: structure and scalar kinds, values abstracted."""
     if isinstance(spec, tuple):
